@@ -38,6 +38,7 @@ func checkC13(c *Ctx, r *Report) {
 	r.rule("C13.O4", "in Check, every path on the err != nil edge passes c.Abort() and a response with constant status 401", 2)
 	r.rule("C13.O5", "every implementation of NFContext.AuthorizationCheck returns nil only on the !OAuth2Required edge, otherwise the result of oauth.VerifyOAuth(token, ...)", 2)
 	r.rule("C13.O7", "the flag AuthorizationCheck reads is assigned from the NRF's declaration (customInfo.oauth2 of the registration answer)", 1)
+	r.rule("C13.O8", "the declaration is learnt by every registration that can be a process's first: every success exit of the registration function assigns the flag, or the instance id it registers under is a random UUID drawn at start", 1)
 	r.rule("C13.O6", "the only HTTP serving calls in the module are on the server built by NewHttp2Server from the router newRouter returns; nothing serves the default mux", 2)
 
 	// registration method names: method set of gin.IRoutes minus Use, plus NoRoute/NoMethod.
@@ -828,5 +829,131 @@ func (x *c13) checkO7() {
 	}
 	if n == 0 {
 		r.viol("C13.O7", "assignment of OAuth2Required", "", "nothing assigns CHFContext.OAuth2Required: AuthorizationCheck always takes the 'not required' branch")
+	}
+	x.checkO8()
+}
+
+// checkO8: the declaration is learnt on every registration that can be the
+// process's first.  In the function that assigns the flag, a success exit
+// that does not pass the assignment is the "200 OK, profile replaced" answer
+// of TS 29.510 5.2.2.2.2: the NRF gives it only when it already holds a
+// profile under the instance id of the request.  Such an exit is harmless
+// exactly when the id is drawn at random at every start of the process (the
+// NRF cannot know it, the first answer is 201 Created and passes the
+// assignment); then every assignment of CHFContext.NfId must be a random
+// UUID or the id the registration function itself returns.
+func (x *c13) checkO8() {
+	c, r := x.c, x.r
+	isCtor := func(v ssa.Value) bool {
+		call, ok := v.(*ssa.Call)
+		if !ok {
+			return false
+		}
+		o := calleeObj(&call.Call)
+		if o == nil || o.Pkg() == nil {
+			return false
+		}
+		switch o.Pkg().Path() {
+		case "errors", "fmt", "github.com/pkg/errors":
+			switch o.Name() {
+			case "New", "Errorf", "Wrap", "Wrapf", "WithMessage", "WithMessagef", "WithStack":
+				return true
+			}
+		}
+		return false
+	}
+	var regFns []*ssa.Function
+	bypass := ""
+	for _, f := range c.ModFuncs {
+		avoid := map[*ssa.BasicBlock]bool{}
+		eachInstr(f, func(b *ssa.BasicBlock, _ int, ins ssa.Instruction) {
+			if st, ok := ins.(*ssa.Store); ok {
+				if fa, ok := st.Addr.(*ssa.FieldAddr); ok && typeIs(fa.X.Type(), ctxPath, "CHFContext") && fieldName(fa) == "OAuth2Required" {
+					avoid[b] = true
+				}
+			}
+		})
+		if len(avoid) == 0 || len(f.Blocks) == 0 {
+			continue
+		}
+		regFns = append(regFns, f)
+		reach := reachableFrom(f.Blocks[0], nil, nil, avoid)
+		for _, ri := range returnsOf(f) {
+			if !reach[ri.At] {
+				continue
+			}
+			failing := false
+			for _, v := range ri.Vals {
+				if types.Identical(v.Type(), types.Universe.Lookup("error").Type()) && isCtor(v) {
+					failing = true
+				}
+			}
+			if !failing && bypass == "" {
+				bypass = fmt.Sprintf("%s can return without an error at %s without having assigned the flag", shortFn(f), posOf(c, ri.Point()))
+			}
+		}
+	}
+	if len(regFns) == 0 {
+		return
+	}
+	if bypass == "" {
+		r.proven("C13.O8", "every success exit assigns the flag", "", "no exit of the registration function that reports success bypasses the assignment of OAuth2Required")
+		return
+	}
+	isReg := func(f *ssa.Function) bool {
+		for _, g := range regFns {
+			if g == f {
+				return true
+			}
+		}
+		return false
+	}
+	n := 0
+	for _, f := range c.ModFuncs {
+		eachInstr(f, func(_ *ssa.BasicBlock, _ int, ins ssa.Instruction) {
+			st, ok := ins.(*ssa.Store)
+			if !ok {
+				return
+			}
+			fa, ok := st.Addr.(*ssa.FieldAddr)
+			if !ok || !typeIs(fa.X.Type(), ctxPath, "CHFContext") || fieldName(fa) != "NfId" {
+				return
+			}
+			n++
+			key := fmt.Sprintf("%s|assignment of NfId", fnKey(f))
+			random, echoed, derived := false, false, ""
+			for d := range depSet(f, st.Val) {
+				call, ok := d.(*ssa.Call)
+				if !ok {
+					continue
+				}
+				if sc := call.Call.StaticCallee(); sc != nil && isReg(sc) {
+					echoed = true
+					continue
+				}
+				for _, callee := range c.calleesAt(call) {
+					if isReg(callee) {
+						echoed = true
+					}
+				}
+				o := calleeObj(&call.Call)
+				if o == nil || o.Pkg() == nil || o.Pkg().Path() != "github.com/google/uuid" {
+					continue
+				}
+				switch o.Name() {
+				case "New", "NewString", "NewRandom", "NewUUID", "NewV7":
+					random = true
+				case "String", "Must", "URN":
+				default:
+					derived = o.Name()
+				}
+			}
+			ok2 := (random && derived == "") || echoed
+			r.check(ok2, "C13.O8", key, posOf(c, st), "the instance id is a random UUID drawn at start (or the id the registration returned): the NRF cannot already hold a profile under it, so the first answer is 201 Created and passes the assignment of the flag",
+				"the instance id is assigned "+describe(st.Val)+", which is not a fresh random UUID, while "+bypass+" (the 200 OK answer an NRF gives when it already holds a profile under that id, e.g. after a restart of the CHF): OAuth2Required then keeps its zero value although the NRF declares OAuth2 mandatory, and every route is served without a token")
+		})
+	}
+	if n == 0 {
+		r.viol("C13.O8", "assignment of NfId", "", "nothing assigns CHFContext.NfId while "+bypass+": the (empty, constant) instance id is known to the NRF after the first start, and OAuth2Required keeps its zero value")
 	}
 }
